@@ -1,12 +1,16 @@
 (** C49 — Parallel map processes each element exactly once.
     Only statements.  Model: SGV.Xbt.Parmap (small-step interleaving model of src/xbt/parmap.hpp: shared common_index
     (fetch_add), thread_counter, work_round; master and workers as program counters); proofs: SGV.Xbt.ParmapProofs.
-    Assumption of the model: sequentially consistent atomics; futex / condition variable / busy waiting are all
-    "proceed only when the condition holds" (no lost wake-up, no relaxed-memory reordering). *)
+    Schedules are lists of events [Step t] (thread t does its next atomic step) and [Spurious t] (the blocking wait
+    thread t is in -- futex_wait, condition_variable::wait, a poll of the busy-wait loop -- returns although nobody woke
+    it: EINTR, EAGAIN, spurious wake-up).  Waits are not atomic awaits: load + test, then block, then (in the code as
+    written) load + test again.  Assumption of the model: sequentially consistent atomics (no relaxed-memory
+    reordering); lost wake-ups (liveness) are not modelled. *)
 From SGV Require Import Base.Tactics Xbt.Parmap Xbt.ParmapProofs.
 From Coq Require Import Permutation.
 
-(* for ANY schedule (any interleaving of the atomic steps of any number of threads), any number of workers, any
+(* for ANY schedule (any interleaving of the atomic steps of any number of threads, with spurious returns of the
+   blocking waits of the master and of the workers anywhere in it), any number of workers, any
    sequence of apply() calls on vectors of any lengths: in every apply() that has returned, the multiset of indices the
    function was applied to is exactly {0..n-1} *)
 Theorem C49_each_once_per_round : forall nw applies sched,
@@ -33,6 +37,40 @@ Theorem C49_round_barrier : forall nw applies sched,
 Proof. exact round_barrier. Qed.
 Print Assumptions C49_round_barrier.
 
+(* the two theorems above spelled out for a schedule that contains a spurious wake-up of any thread at any point *)
+Theorem C49_spurious_wakeups_harmless : forall nw applies sched1 t sched2,
+  let s := run (sched1 ++ Spurious t :: sched2) (init nw applies) in
+  Forall (fun d => Permutation (snd d) (seq 0 (fst d))) (done s) /\ (mpc s = MIdle -> Forall (idle_at (wr s)) (ws s)).
+Proof. intros nw applies sched1 t sched2. split; [apply each_once_per_round|apply round_barrier]. Qed.
+Print Assumptions C49_spurious_wakeups_harmless.
+
+(* they depend on the re-check after every wait: were master_wait() a single, non-rechecked wait
+   (`if (count < num_workers) futex_wait(...)`), a spurious return (EINTR) lets apply() return while a worker is still
+   inside the user function -- at that time the element has been processed 0 times ... *)
+Theorem C49_single_wait_refuted : exists nw applies sched d,
+  In d (done (run_v single_master_wait sched (init nw applies))) /\
+  ~ Permutation (snd d) (seq 0 (fst d)) /\ counts (fst d) (snd d) <> repeat 1 (fst d).
+Proof. exact each_once_single_wait_refuted. Qed.
+Print Assumptions C49_single_wait_refuted.
+(* ... even without any spurious event, with 3 threads: FUTEX_WAIT returns at once (EAGAIN) when another worker
+   incremented the counter between the master's load and the system call ... *)
+Theorem C49_single_wait_refuted_no_spurious : exists nw applies sched d,
+  Forall (fun e => match e with Step _ => True | Spurious _ => False end) sched /\
+  In d (done (run_v single_master_wait sched (init nw applies))) /\ counts (fst d) (snd d) <> repeat 1 (fst d).
+Proof. exact each_once_single_wait_refuted_no_spurious. Qed.
+Print Assumptions C49_single_wait_refuted_no_spurious.
+(* ... and the barrier between rounds is lost too (master or worker side) *)
+Theorem C49_round_barrier_single_wait_refuted : exists nw applies sched,
+  let s := run_v single_master_wait sched (init nw applies) in
+  mpc s = MIdle /\ ~ Forall (idle_at (wr s)) (ws s).
+Proof. exact round_barrier_single_wait_refuted. Qed.
+Print Assumptions C49_round_barrier_single_wait_refuted.
+Theorem C49_round_barrier_single_worker_wait_refuted : exists nw applies sched,
+  let s := run_v single_worker_wait sched (init nw applies) in
+  mpc s = MIdle /\ ~ Forall (idle_at (wr s)) (ws s).
+Proof. exact round_barrier_single_worker_wait_refuted. Qed.
+Print Assumptions C49_round_barrier_single_worker_wait_refuted.
+
 (* ... and the completed apply() calls are the requested ones, in order, each once *)
 Theorem C49_rounds_in_order : forall nw applies sched,
   let s := run sched (init nw applies) in
@@ -44,5 +82,12 @@ Print Assumptions C49_rounds_in_order.
    irregular schedule followed by round-robin): 3 rounds done, every counter is 1 *)
 Example C49_nonvacuous :
   run_c49 [3; 3; 5; 0; 3; 1; 1; 2; 0; 0; 0; 2; 2; 1; 0; 0; 2; 1; 1; 1; 0; 2; 0; 0; 1]%Z
+  = [3; 5; 1; 1; 1; 1; 1; 0; 3; 1; 1; 1]%Z.
+Proof. vm_compute. reflexivity. Qed.
+
+(* the same case with spurious returns (negative numbers: -1 master, -2/-3 the workers) sprinkled in, some of them while
+   the thread is really blocked (the master after its last element, a worker before the first round): same result *)
+Example C49_nonvacuous_spurious :
+  run_c49 [3; 3; 5; 0; 3; 1; 1; -2; 1; -2; 2; 0; 0; 0; 2; 2; -3; 1; 0; 0; 2; 1; 0; 0; 0; 0; 0; 0; 0; 0; -1; 0; -1; 1; 1; 0; -2; 2; 0; 0; 1; -1; -3]%Z
   = [3; 5; 1; 1; 1; 1; 1; 0; 3; 1; 1; 1]%Z.
 Proof. vm_compute. reflexivity. Qed.
